@@ -1,5 +1,5 @@
 (* C20 driver: one history per line.
-   h <maxv> <tf> <misc> <nx> <nodata> <deleg> <trunc> <nev> <event>*
+   h <maxv> <tf> <misc> <nx> <nodata> <deleg> <trunc> <nev> <event>*   (raw setter arguments; `d` x 7 = Config::default())
    event := q <name> <class> <type> <flags rd|cd<<1|ad<<2|do<<3> <opcode> <now_ms> <delay_ms> <resp>
           | x <n>
    resp  := e <code> | m <rcode> <flags aa|tc<<1|rd<<2|ad<<3> <q: - | type:class> <nan> <nns> <nar> <rec>*
@@ -58,12 +58,13 @@ let show_resp = function
 let show_obs = function
   | OServed r -> "S " ^ show_resp r
   | OForwarded -> "F"
-  | OBypass -> "B"
+  | OBypass -> "F"  (* not distinguishable from outside: both reach upstream *)
   | OEvicted -> "X"
 
 let handle = function
   | "h" :: maxv :: tf :: misc :: nx :: nodata :: deleg :: trunc :: nev :: rest ->
-      let cfg = config_of (ni maxv) (ni tf) (ni misc) (ni nx) (ni nodata) (ni deleg) (trunc = "1") in
+      let cfg = if maxv = "d" then config_default
+        else config_of (ni maxv) (ni tf) (ni misc) (ni nx) (ni nodata) (ni deleg) (trunc = "1") in
       let evs = parse_events (int_of_string nev) rest [] in
       (match c20_run cfg evs with
        | Ok os -> String.concat " | " (List.map show_obs os)
